@@ -38,7 +38,8 @@ FOCUSED_QUICK = [("MC_Programs_calls6", [None, {"t": "int", "v": 5}]),
                  ("MC_Programs_partial5", [{"t": "int", "v": 5}]),
                  ("MC_Programs_casts7q", [LIST4]),
                  ("MC_Programs_paths5", [NESTED]),
-                 ("MC_Programs_logic5", [{"t": "int", "v": 5}])]
+                 ("MC_Programs_logic5", [{"t": "int", "v": 5}]),
+                 ("MC_Programs_bytes4", [None])]
 FOCUSED_THOROUGH = [("MC_Programs_calls8", [None, {"t": "int", "v": 5}]),
                     ("MC_Programs_conds6", [None, {"t": "int", "v": 5}, progs.INPUTS[3]]),
                     ("MC_Programs_chains7", [None, {"t": "int", "v": 5}]),
@@ -47,7 +48,14 @@ FOCUSED_THOROUGH = [("MC_Programs_calls8", [None, {"t": "int", "v": 5}]),
                     ("MC_Programs_seqs5", [None, {"t": "int", "v": 1}]),
                     ("MC_Programs_slices7w", [LIST4]),
                     ("MC_Programs_partial6", [None, {"t": "int", "v": 5}]),
-                    ("MC_Programs_casts6", [None, LIST4]), ("MC_Programs_casts7", [LIST4]), ("MC_Programs_paths6", [NESTED, LIST4]), ("MC_Programs_logic5", [None, {"t": "int", "v": 5}, {"t": "false"}])]
+                    ("MC_Programs_casts6", [None, LIST4]), ("MC_Programs_casts7", [LIST4]), ("MC_Programs_paths6", [NESTED, LIST4]), ("MC_Programs_logic5", [None, {"t": "int", "v": 5}, {"t": "false"}]),
+                    ("MC_Programs_bytes5", [None])]
+
+
+def LOGIC8(a):
+    """a conditional with an else-chain inside an operand of && / || next to a `??`: the join point of the conditional and the
+    closing coercion of the operand meet (the shape of repair 4d78030)"""
+    return "els" in a and "tis" in a and ("and" in a or "or" in a)
 
 
 def corpus(out, tier, seed, wd, trace=False, extra=None, light=False):
@@ -81,7 +89,9 @@ def corpus(out, tier, seed, wd, trace=False, extra=None, light=False):
                         c.update(extra)
                     f.write(json.dumps(c, separators=(",", ":")) + "\n")
                     ncases += 1
-        if tier == "quick" and light:       # traced runs are an order of magnitude larger: fewer inputs per program
+        if os.environ.get("VERIF_ONLY_CFG"):      # development aid: one generator config only (not used by any registered command)
+            add(os.environ["VERIF_ONLY_CFG"], [None, {"t": "int", "v": 5}])
+        elif tier == "quick" and light:       # traced runs are an order of magnitude larger: fewer inputs per program
             add("MC_Programs_q3", [None, progs.INPUTS[3]])
             add("MC_Programs_calls6", [progs.INPUTS[1]])
             add("MC_Programs_conds5", [None])
@@ -94,6 +104,7 @@ def corpus(out, tier, seed, wd, trace=False, extra=None, light=False):
             add("MC_Programs_q3", progs.INPUTS)
             for cfg, inputs in FOCUSED_QUICK:
                 add(cfg, inputs)
+            add("MC_Programs_logic8", [None], only=LOGIC8)
             add("MC_SliceEq", [LIST4], module="MC_SliceEq")          # shapes too deep for the size-bounded enumeration
             add("MC_SliceOps", [LIST4], module="MC_SliceOps")
             add("MC_Programs_sim", [None, progs.INPUTS[1], progs.INPUTS[3]], simulate=300, depth=14, seed=seed, min_nodes=5, cap=1200)
@@ -102,6 +113,7 @@ def corpus(out, tier, seed, wd, trace=False, extra=None, light=False):
             add("MC_Programs_t3", progs.INPUTS)
             for cfg, inputs in FOCUSED_THOROUGH:
                 add(cfg, inputs, timeout=3000)
+            add("MC_Programs_logic8", [None, {"t": "int", "v": 5}], only=LOGIC8, timeout=3000)
             add("MC_SliceEq", [LIST4, None], module="MC_SliceEq")
             add("MC_SliceOps", [LIST4, None], module="MC_SliceOps")
             add("MC_Programs_sim", progs.INPUTS, simulate=6000, depth=14, seed=seed, min_nodes=5, cap=40000)
@@ -140,7 +152,11 @@ def decide(out, obs, props, ncases, nprogs, st, rule):
         if o.get("outcome") == "notrun":
             continue
         if o.get("outcome") in ("hang", "abort", "harness_panic"):
-            out.fail("NEW", "worker %s while running a program" % o.get("outcome"), o, family="worker " + str(o.get("outcome")))
+            # (mirrors KnownFindings!HugeSpanAst, the signature V_C07 uses for the same programs)
+            a = (o.get("input_case") or {}).get("ast") or []
+            huge = o.get("outcome") == "hang" and "cast" in a and "nmax" in a and any(x in a for x in ("rng", "rngs", "rnge", "rngx"))
+            out.fail("C07-huge-span-materialised" if huge else "NEW", "worker %s while running a program" % o.get("outcome"),
+                     {"src": o.get("src"), "run_case": o.get("input_case"), "status": o.get("outcome")}, family="worker " + str(o.get("outcome")))
     out.cov["distinct_nontrivial"] = len(nt)
     out.cov["samples"] = samples
     out.cov["worker_hangs"] = st["hang"]
